@@ -274,6 +274,26 @@ def rule_lp2(prog, rep, units, rid='LP2'):
                                     if k == 'CompoundAssignOperator' and not _positive(children(y)[1]):
                                         continue
                                     cands.setdefault(canon(t), set()).add(i)
+                    # a budget kept by a helper: `charge(&budget, ...)` where the static helper updates *param monotonically and
+                    # returns a comparison of it with a constant; the call is the update, the test of its result is the test
+                    helper_tests = {}
+                    for i in body:
+                        m = cfg.nodes[i]
+                        if not isinstance(m.ast, dict) or m.kind == 'macro':
+                            continue
+                        for y in walk(m.ast):
+                            if y.get('kind') != 'CallExpr':
+                                continue
+                            g = prog.resolve_name(f.unit, prog.callee_name(y)) if prog.callee_name(y) else None
+                            if g is None or getattr(g, 'body', None) is None or not getattr(g, 'static', False):
+                                continue
+                            for k, a in enumerate(children(y)[1:]):
+                                sa = strip(a)
+                                if sa.get('kind') == 'UnaryOperator' and sa.get('opcode') == '&' and k < len(g.params) and \
+                                        strip(children(sa)[0]).get('kind') == 'DeclRefExpr' and _budget_helper(g, g.params[k].get('name')):
+                                    c = canon(children(sa)[0])
+                                    cands.setdefault(c, set()).add(i)
+                                    helper_tests.setdefault(c, set()).add(i)
                     ok, why = False, 'no integer budget variable is updated in the loop'
                     for c, upd in sorted(cands.items()):
                         # every cycle head -> rewrite -> head passes an update of c
@@ -291,6 +311,27 @@ def rule_lp2(prog, rep, units, rid='LP2'):
                                 continue
                             if c not in [canon(strip(z)) for z in walk(cc) if z.get('kind') == 'DeclRefExpr']:
                                 continue
+                            for (s, lab) in m.succs:
+                                if not _reaches(cfg, s, rw):
+                                    exits = True
+                        # the test of a budget helper's result (the cond node holding the call, or testing the variable it was assigned to)
+                        for i in helper_tests.get(c, ()):
+                            m = cfg.nodes[i]
+                            tests = [m] if m.kind == 'cond' else []
+                            if m.kind != 'cond' and isinstance(m.ast, dict):
+                                rv = m.ast.get('name') if m.ast.get('kind') == 'VarDecl' else None
+                                for z in walk(m.ast):
+                                    if z.get('kind') == 'BinaryOperator' and z.get('opcode') == '=' and strip(children(z)[1]).get('kind') == 'CallExpr':
+                                        rv = canon(children(z)[0])
+                                if rv:
+                                    tests = [cfg.nodes[j] for j in body if cfg.nodes[j].kind == 'cond' and isinstance(cfg.nodes[j].ast, dict)
+                                             and rv in _reads(cfg.nodes[j].ast)[0]]
+                            for t in tests:
+                                for (s, lab) in t.succs:
+                                    if not _reaches(cfg, s, rw):
+                                        exits = True
+                        for i in ():
+                            m = cfg.nodes[i]
                             for (s, lab) in m.succs:
                                 if not _reaches(cfg, s, rw):
                                     exits = True
@@ -410,6 +451,25 @@ def _natural_body(cfg, head, stmt):
     return fwd & bwd
 
 
+def _budget_helper(g, pname):
+    """g updates *pname monotonically (+= positive, ++) and compares it with a constant (in a condition or its return value)"""
+    upd = cmpc = False
+    for y in walk(g.body):
+        k = y.get('kind')
+        if (k == 'CompoundAssignOperator' and y.get('opcode') == '+=') or (k == 'UnaryOperator' and y.get('opcode') == '++'):
+            t = strip(children(y)[0])
+            if t.get('kind') == 'UnaryOperator' and t.get('opcode') == '*' and canon(children(t)[0]) == pname:
+                if k == 'UnaryOperator' or _positive(children(y)[1]):
+                    upd = True
+        if k == 'BinaryOperator' and y.get('opcode') in ('<', '<=', '>', '>='):
+            a, b = children(y)
+            for (p_, q) in ((a, b), (b, a)):
+                sp = strip(p_)
+                if sp.get('kind') == 'UnaryOperator' and sp.get('opcode') == '*' and canon(children(sp)[0]) == pname and int_value(q) is not None:
+                    cmpc = True
+    return upd and cmpc
+
+
 def _positive(e):
     """the added amount is provably >= 1: a positive literal, or an unsigned expression plus a positive literal"""
     v = int_value(e)
@@ -455,3 +515,94 @@ def _reaches(cfg, src, dst):
         seen.add(m.id)
         work += [s for (s, _l) in m.succs]
     return False
+
+
+def rule_lp4(prog, rep, units, rid='LP4'):
+    """Recursion driven by the input's nesting.  A function of the parser units that (directly or through other functions of
+    the unit) calls itself descends once per nesting level of the input; its stack use is therefore controlled by the
+    input unless the descent is bounded.  Every path from the function's entry to the recursive call must pass a comparison
+    of a per-level quantity (something reachable from a parameter, or a local derived from one) with a constant, one of
+    whose edges cannot reach the recursive call."""
+    rep.rule(rid, 'a recursive descent of the parser units is bounded: every path to the recursive call passes a test of a per-level '
+                  'quantity against a constant, one edge of which does not reach the call')
+    for u in units:
+        prog.unit(u)
+        funcs = {f.name: f for f in prog.funcs_in(u) if f.body is not None}
+        calls = {nm: {prog.callee_name(y) for y in walk(f.body) if y.get('kind') == 'CallExpr'} & set(funcs) for nm, f in funcs.items()}
+
+        def reaches(a, b):
+            seen, work = set(), [a]
+            while work:
+                x = work.pop()
+                for c in calls.get(x, ()):
+                    if c == b:
+                        return True
+                    if c not in seen:
+                        seen.add(c)
+                        work.append(c)
+            return False
+        for nm, f in sorted(funcs.items(), key=lambda kv: kv[1].line or 0):
+            if not reaches(nm, nm):
+                continue
+            cfg = f.cfg
+            pnames = {p.get('name') for p in f.params}
+            # locals derived from parameters (one step is enough for `level = parent->level + 1` style records)
+            derived = set(pnames)
+            for y in walk(f.body):
+                if y.get('kind') == 'BinaryOperator' and y.get('opcode') == '=':
+                    if _reads(children(y)[1])[0] & derived:
+                        b = strip(children(y)[0])
+                        while b.get('kind') == 'MemberExpr':
+                            b = strip(children(b)[0])
+                        if b.get('kind') == 'DeclRefExpr':
+                            derived.add(canon(b))
+            rec = [n for n in cfg.nodes if n.id in cfg.reachable and isinstance(n.ast, dict) and n.kind != 'macro' and any(
+                y.get('kind') == 'CallExpr' and prog.callee_name(y) in funcs and
+                (prog.callee_name(y) == nm or reaches(prog.callee_name(y), nm)) for y in walk(n.ast))]
+            for r in rec:
+                rep.instance(rid)
+
+                def gate(m, lab):
+                    """edge (m, lab) is the passing edge of a depth test: the other edge cannot reach r"""
+                    if m.kind != 'cond' or not isinstance(m.ast, dict):
+                        return False
+                    c = strip_parens(m.ast)
+                    if c.get('kind') != 'BinaryOperator' or c.get('opcode') not in ('<', '<=', '>', '>='):
+                        return False                 # a limit is an ordering test (NULL / flag / zero tests are not depth bounds)
+                    a, b = children(c)
+                    va, vb = int_value(a), int_value(b)
+                    var = b if va is not None else (a if vb is not None else None)
+                    lim = va if va is not None else vb
+                    if var is None or not isinstance(lim, int) or lim < 2 or not (_reads(var)[0] & derived):
+                        return False
+                    if (qtype(strip(var)) or '').rstrip().endswith('*'):
+                        return False
+                    others = [(s, l2) for (s, l2) in m.succs if l2 != lab]
+                    if not others:
+                        return False
+                    # feasibility-aware (flag locals such as `exception = true` decide the loop condition they guard)
+                    from .hasharr import _path_avoiding
+                    for (s, l2) in others:
+                        if s is r or _path_avoiding(cfg, m, lambda k: False, skip_edge=lambda k, l3: k is m and l3 != l2, target=r):
+                            return False
+                    return True
+                # a path entry -> r that passes no gate
+                seen, work, bad = set(), [cfg.entry], None
+                while work and bad is None:
+                    m = work.pop()
+                    if m.id in seen:
+                        continue
+                    seen.add(m.id)
+                    if m is r:
+                        bad = m
+                        break
+                    for (s, lab) in m.succs:
+                        if gate(m, lab):
+                            continue
+                        work.append(s)
+                rep.oblige(rid, bad is None, {'function': nm, 'recursive_call_line': r.line})
+                if bad is not None:
+                    rep.violation(rid, f, r.line, 'recursion:%s' % nm,
+                                  '%s descends into itself at line %s once per nesting level of the input without any bound on the depth: a '
+                                  'deeply nested document exhausts the stack (every level keeps its locals, e.g. a line buffer, alive)'
+                                  % (nm, r.line))
